@@ -7,10 +7,13 @@
 #include "mp/flat/redef/MIP/logical_or.h"
 #include "mp/flat/redef/MIP/min_max.h"
 #include "mp/flat/redef/MIP/abs.h"
+#include "mp/flat/redef/MIP/ifthenelse.h"
+#include "mp/flat/redef/MIP/logical_not.h"
 extern "C" {
 void vf_rc_lin(int kind, int n, const double* coefs, const int* vars, double rhs);                       // kind: -1 <=, 0 ==, 1 >=
 void vf_rc_ind(int bvar, int bval, int kind, int n, const double* coefs, const int* vars, double rhs);  // bvar == bval  ==>  linear constraint
-int vf_rc_addvars(int n, double lb, double ub, int is_int);                                              // returns the first new index
+int vf_rc_addvars(int n, double lb, double ub, int is_int);
+int vf_rc_defvar(int n, const double* coefs, const int* vars, double constant);                           // new variable := affine expression; returns its index                                              // returns the first new index
 }
 struct MC {
   double rlb, rub;
@@ -23,6 +26,9 @@ struct MC {
     vf_rc_ind(ic.get_binary_var(), ic.get_binary_value(), sgn<K>(), (int)c.GetBody().size(), c.GetBody().coefs().data(), c.GetBody().vars().data(), c.rhs()); return 0; }
   std::vector<int> AddVars_returnIds(std::size_t n, double lb, double ub, mp::var::Type t) { int f = vf_rc_addvars((int)n, lb, ub, t == mp::var::INTEGER); std::vector<int> r(n); for (std::size_t i = 0; i < n; ++i) r[i] = f + (int)i; return r; }
   int AddVar(double lb, double ub, mp::var::Type t) { return vf_rc_addvars(1, lb, ub, t == mp::var::INTEGER); }
+  bool is_fixed(int) const { return false; }      // then / else are (non-fixed) variables
+  double fixed_value(int) const { return 0; }
+  int AssignResultVar2Args(mp::LinearFunctionalConstraint&& fc) { const auto& ae = fc.GetAffineExpr(); return vf_rc_defvar((int)ae.size(), ae.coefs().data(), ae.vars().data(), ae.constant_term()); }
 };
 #define W extern "C" __attribute__((noinline))
 template <class Con, class Cvt> static int run(MC& mc, int nargs, int ctx) {
@@ -30,7 +36,7 @@ template <class Con, class Cvt> static int run(MC& mc, int nargs, int ctx) {
   Con c(a); c.SetResultVar(nargs); c.SetContext(mp::Context((mp::Context::CtxVal)ctx));
   Cvt cvt(mc); cvt.Convert(c, 0); return 0;
 }
-// which: 0 and, 1 or, 2 min, 3 max, 4 abs; ctx: 1 positive, 2 negative, 3 mixed; arguments are variables 0..nargs-1, the result is variable nargs
+// which: 0 and, 1 or, 2 min, 3 max, 4 abs, 5 if-then-else (condition = variable 0, then = 1, else = 2, result = 3); ctx: 1 positive, 2 negative, 3 mixed; arguments are variables 0..nargs-1, the result is variable nargs
 W int w_convert(int which, int nargs, int ctx, double rlb, double rub) {
   try {
     MC mc; mc.rlb = rlb; mc.rub = rub;
@@ -39,6 +45,8 @@ W int w_convert(int which, int nargs, int ctx, double rlb, double rub) {
       case 1: return run<mp::OrConstraint, mp::OrConverter_MIP<MC> >(mc, nargs, ctx);
       case 2: return run<mp::MinConstraint, mp::MinConverter_MIP<MC> >(mc, nargs, ctx);
       case 3: return run<mp::MaxConstraint, mp::MaxConverter_MIP<MC> >(mc, nargs, ctx);
+      case 6: { mp::NotConstraint c({0}); c.SetResultVar(1); c.SetContext(mp::Context((mp::Context::CtxVal)ctx)); mp::NotConverter_MIP<MC> cvt(mc); cvt.Convert(c, 0); return 0; }
+      case 5: { mp::IfThenConstraint c({0, 1, 2}); c.SetResultVar(3); c.SetContext(mp::Context((mp::Context::CtxVal)ctx)); mp::IfThenElseConverter_MIP<MC> cvt(mc); cvt.Convert(c, 0); return 0; }
       case 4: { mp::AbsConstraint c({0}); c.SetResultVar(1); c.SetContext(mp::Context((mp::Context::CtxVal)ctx)); mp::AbsConverter_MIP<MC> cvt(mc); cvt.Convert(c, 0); return 0; }
     }
     return 2;
